@@ -150,6 +150,30 @@ def opsTl : List (String × Handler) := [
         | none => "bad-bindings"
       | _, _ => "bad-op"
     | _ => "bad-op"),
+  -- hand-written request builders of liteclient/client.go (answers: WaitMasterchainBlock handles them exactly like the
+  -- generated method of liteServer.lookupBlock)
+  ("tl.wait.seqno", fun
+    | [sh, sq, to, h] => match schemaArg sh, sq.toNat?, to.toNat?, hexArgBig h with
+      | some S, some q, some t, some bs => match waitSeqnoRequest q t with
+        | some req =>
+          let ans := outcomeStr (waitSeqnoAnswer S tlFuel bs) (fun
+            | none => "nil"
+            | some vs => s!"lserr {TlVal.print (.tuple vs)}")
+          s!"ok {hexOut (envelope [] req)} {ans}"
+        | none => "err"
+      | _, _, _, _ => "bad-op"
+    | _ => "bad-op"),
+  ("tl.wait.block", fun
+    | [sh, sq, to, h] => match schemaArg sh, sq.toNat?, to.toNat?, hexArgBig h with
+      | some S, some q, some t, some bs => match waitBlockRequest S q t with
+        | some req =>
+          let ans := outcomeStr (decodeAnswer S tlFuel "liteServer.lookupBlock" bs) (fun
+            | .result v => s!"res {TlVal.print v}"
+            | .serverError vs => s!"lserr {TlVal.print (.tuple vs)}")
+          s!"ok {hexOut (envelope [] req)} {ans}"
+        | none => "err"
+      | _, _, _, _ => "bad-op"
+    | _ => "bad-op"),
   ("tl.hw.accountid.dec", fun
     | [h] => match hexArg h with
       | some bs => outcomeStr (accountIdUnTL bs) (fun ((wc, a), r) => s!"ok {wc} {hexOut a} {hexOut r}")
